@@ -518,9 +518,10 @@ impl<'tcx> Cx<'tcx> {
                     AssertKind::Overflow(op, a, b) => (
                         format!("overflow:{:?}", op),
                         format!(
-                            ",\"oa\":{},\"ob\":{}",
+                            ",\"oa\":{},\"ob\":{},\"oty\":{}",
                             self.operand_json(owner, body, a),
-                            self.operand_json(owner, body, b)
+                            self.operand_json(owner, body, b),
+                            esc(&self.ty_str(a.ty(&body.local_decls, self.tcx)))
                         ),
                     ),
                     AssertKind::OverflowNeg(a) => (
